@@ -101,17 +101,17 @@ theorem unknown_wire_type_is_error : Gen.CodecSchema.proto.defaultRejects = true
   | fail "OBLIGATION unknown_wire_type_is_error no longer holds: the default branch of `switch b.typ` in proto.go decodeField does not return an error"
 
 /-- postDecode's dense id tables, WHEN the translator recognises the id-table code (inline slices or
-one generic helper type): one per entity table, of the length the model (`IdTables.build`) uses, and
+one generic helper type): at most one per entity table (Mapping, Function, Location), each of the length the model (`IdTables.build`) uses, and
 no index expression on them outside `if id < uint64(len(table))`.  (`denseTables = none`: the code has
 another shape; then only the dynamic correspondence and C02's `postDecode_id_tables_total` speak.) -/
 theorem dense_tables_match (ts : List Gen.CodecSchema.DenseTable)
     (h : Gen.CodecSchema.denseTables = some ts) :
-    ∃ extra, ts = expectedDenseTables extra ∧
+    ∃ extra, ts.all (denseTableOK extra) = true ∧
       ∀ ids : List Nat, IdTables.build ids =
         IdTables.buildGo { dense := List.replicate (ids.length + extra) none, sparse := [] } 0 ids := by
   unfold Gen.CodecSchema.denseTables at h
   first
   | (cases h <;> exact ⟨1, by decide, fun _ => rfl⟩)
-  | fail "OBLIGATION dense_tables_match no longer holds: the dense id tables of postDecode are not one `make([]*T, len(p.T)+1)` each for Mapping, Function, Location, or an index expression on them is not under `id < uint64(len(table))`"
+  | fail "OBLIGATION dense_tables_match no longer holds: the dense id tables of postDecode are not `make([]*T, len(p.T)+1)` for T among Mapping, Function, Location, or an index expression on them is not under `id < uint64(len(table))`"
 
 end PV.CodecSchema.Facts
